@@ -7,7 +7,7 @@ Contract, complex mode (abstract domain {real, complex, bool}):
    comparison / min / max handlers raise if any operand may be complex, otherwise return a node whose value equals the
    original for real data.
 Contract, real mode: removing Conj / Real nodes leaves den unchanged for real data; Imag nodes and complex literals raise.
-Real-valued math functions that are not closed over the reals (sqrt, ln, acos, asin; non-integer powers) are modelled with an
+Real-valued math functions that are not closed over the reals (sqrt, ln, acos, asin, bessel_Y, bessel_K; non-integer powers) are modelled with an
 unconstrained imaginary part, so typing their result 'real' is refuted.
 """
 from __future__ import annotations
@@ -37,8 +37,8 @@ TECHNIQUE = ("abstract-interpretation soundness contracts on the real CheckCompa
 LEVEL_TEXT = "All-values proofs per (handler, operand typing); shapes enumerated; every registered operator class is either covered by a template or reported."
 LEVEL_NOTE = ("Trusted: ufv/den.py complex-pair semantics; the table of real functions not closed over the reals (sqrt, ln, acos, asin, "
               "non-integer powers) modelled with a free imaginary part; z3.")
-TRUSTED = ["ufv/den.py, ufv/num.py (complex pairs)", "table: sqrt/ln/acos/asin/non-integer powers of reals may be complex", "z3"]
-ASSUMPTIONS = ["operand shapes per ufv/nodes.py", "Bessel functions are treated as real on real arguments", "index-notation nodes carry a MultiIndex terminal "
+TRUSTED = ["ufv/den.py, ufv/num.py (complex pairs)", "table: sqrt/ln/acos/asin/bessel_Y/bessel_K/non-integer powers of reals may be complex", "z3"]
+ASSUMPTIONS = ["operand shapes per ufv/nodes.py", "Bessel functions of the first kind (J, I) are real on real arguments; those of the second kind (Y, K) may be complex (negative arguments)", "index-notation nodes carry a MultiIndex terminal "
                "which the checker types complex (conservative rejections are allowed by the property)"]
 EXPLANATION = ("Soundness of the real/complex type inference used to admit ordering comparisons in complex mode, and value preservation of "
                "both mode-specific rewrites, per handler for all operand values.")
